@@ -520,14 +520,31 @@ pub fn emit_case_known(out: &mut dyn Write, group: &str, c: &Case, verbose: bool
     };
     let calls = c.calls();
     let query = format!(
-        "run src={}:{} calls={} term={} cs={} asg={}",
+        "run src={}:{} calls={} term={} cs={} asg={} panic={}",
         match c.src_kind { 'V' => 'v', 'K' => 'k', 'U' | 'e' => 'u', k => k },
         if c.input.is_empty() { "-".to_string() } else { c.input.iter().map(|x| x.to_string()).collect::<Vec<_>>().join(",") },
         if calls.is_empty() { "-".to_string() } else { calls.join(";") },
         c.term.enc(),
         if cs_s.is_empty() { "-".to_string() } else { cs_s },
-        asg_s
+        asg_s,
+        match c.panic_at {
+            None => "-".to_string(),
+            Some((st, a)) => format!("{}:{}", st, a),
+        }
     );
+    // digest of the multiset of closure invocations (same function as the Lean driver's evDigest)
+    let impl_evd = if c.panic_at.is_some() || panicked || c.src_kind == 'e' {
+        "na".to_string()
+    } else {
+        let mut n = 0u64;
+        let mut sum = 0u64;
+        for e in r.rec.events.iter().filter(|e| chain_stage(e.stage)) {
+            let a = ((e.stage as u64) + 1).wrapping_mul(1u64 << 40).wrapping_add(e.arg);
+            sum = sum.wrapping_add(a.wrapping_mul(a).wrapping_add(a.wrapping_mul(12345)));
+            n += 1;
+        }
+        format!("{}:{}", n, sum)
+    };
     let impl_params = r.params_trace.iter().map(|(p, s)| enc_params(*p, *s)).collect::<Vec<_>>().join("|");
     let impl_eff = r.effects_trace.iter().map(|e| e.0.to_string()).collect::<Vec<_>>().join(",");
     let nworkers: usize = r.rec.runs.last().map(|x| x.worker_chunks.len()).unwrap_or(0);
@@ -546,13 +563,14 @@ pub fn emit_case_known(out: &mut dyn Write, group: &str, c: &Case, verbose: bool
     let oracle_out_n = norm(&ex.out);
     writeln!(
         out,
-        "CASE\tgroup={}\tcase={}\tquery={}\timpl_out={}\timpl_params={}\timpl_eff={}\toracle_out={}\tfails={}\tnotes={}\tstats=len:{},kinds:{},term:{},runs:{},workers:{},empty_workers:{},traced:{},mode:{},us:{}",
+        "CASE\tgroup={}\tcase={}\tquery={}\timpl_out={}\timpl_params={}\timpl_eff={}\timpl_evd={}\toracle_out={}\tfails={}\tnotes={}\tstats=len:{},kinds:{},term:{},runs:{},workers:{},empty_workers:{},traced:{},mode:{},us:{}",
         group,
         c.enc(),
         query,
         impl_out_n.enc(),
         impl_params,
         impl_eff,
+        impl_evd,
         oracle_out_n.enc(),
         if fails.is_empty() { "-".to_string() } else { fails.join("|") },
         if notes.is_empty() { "-".to_string() } else { notes.join("|") },
